@@ -1,7 +1,7 @@
 (* C15 -- list operations obey their algebraic laws.
    GENERATED from Properties/src/C15.props by tools/mkprops.py; property theorems only. *)
 From SP Require Import Model.Impl Model.Spec.
-From SP Require Import Proofs.ImplSpec Proofs.ListOps Proofs.RangeP Proofs.MapSepP.
+From SP Require Import Proofs.ImplSpec Proofs.ListOps Proofs.ListLawsP Proofs.RangeP Proofs.MapSepP.
 From Coq Require Import Permutation Sorted.
 
 Theorem C15_sort_is_a_permutation :
@@ -148,6 +148,58 @@ Proof. exact sort_idempotent. Qed.
 Check C15_sort_idempotent :
   forall (l : list str), sort_asc (sort_asc l) = sort_asc l.
 Print Assumptions C15_sort_idempotent.
+
+(* any rearrangement of the input sorts to the same list *)
+Theorem C15_sort_depends_on_the_multiset_only :
+  forall (l1 l2 : list str), Permutation l1 l2 -> sort_asc l1 = sort_asc l2.
+Proof. exact sort_order_insensitive. Qed.
+Check C15_sort_depends_on_the_multiset_only :
+  forall (l1 l2 : list str), Permutation l1 l2 -> sort_asc l1 = sort_asc l2.
+Print Assumptions C15_sort_depends_on_the_multiset_only.
+
+Theorem C15_sort_after_reverse :
+  forall (l : list str), sort_asc (rev l) = sort_asc l.
+Proof. exact sort_after_reverse. Qed.
+Check C15_sort_after_reverse :
+  forall (l : list str), sort_asc (rev l) = sort_asc l.
+Print Assumptions C15_sort_after_reverse.
+
+Theorem C15_sort_keeps_length :
+  forall (l : list str), length (sort_asc l) = length l.
+Proof. exact sort_length. Qed.
+Check C15_sort_keeps_length :
+  forall (l : list str), length (sort_asc l) = length l.
+Print Assumptions C15_sort_keeps_length.
+
+Theorem C15_sorted_list_is_fixed :
+  forall (l : list str), StronglySorted sle l -> sort_asc l = l.
+Proof. exact sorted_is_fixed. Qed.
+Check C15_sorted_list_is_fixed :
+  forall (l : list str), StronglySorted sle l -> sort_asc l = l.
+Print Assumptions C15_sorted_list_is_fixed.
+
+Theorem C15_filter_idempotent :
+  forall (A : Type) (f : A -> bool) (l : list A), filter f (filter f l) = filter f l.
+Proof. exact @filter_idempotent. Qed.
+Check C15_filter_idempotent :
+  forall (A : Type) (f : A -> bool) (l : list A), filter f (filter f l) = filter f l.
+Print Assumptions C15_filter_idempotent.
+
+Theorem C15_filter_not_after_filter_is_empty :
+  forall (A : Type) (f : A -> bool) (l : list A), filter (fun x => negb (f x)) (filter f l) = [].
+Proof. exact @filter_then_opposite_is_empty. Qed.
+Check C15_filter_not_after_filter_is_empty :
+  forall (A : Type) (f : A -> bool) (l : list A), filter (fun x => negb (f x)) (filter f l) = [].
+Print Assumptions C15_filter_not_after_filter_is_empty.
+
+Theorem C15_filter_lengths_add_up :
+  forall (A : Type) (f : A -> bool) (l : list A),
+  length (filter f l) + length (filter (fun x => negb (f x)) l) = length l.
+Proof. exact @filter_length_split. Qed.
+Check C15_filter_lengths_add_up :
+  forall (A : Type) (f : A -> bool) (l : list A),
+  length (filter f l) + length (filter (fun x => negb (f x)) l) = length l.
+Print Assumptions C15_filter_lengths_add_up.
 
 Theorem C15_sort_invents_nothing :
   forall (l : list str), incl (sort_asc l) l.
